@@ -464,8 +464,27 @@ def install_eer(sess):
             sess.skip("M-eer", "magnitude near the float range limits: only the zero-EER clause is claimed")
             return
         sess.check("M-eer", 0.0 <= e <= 1.0, "EER outside [0,1]", w, sig=sig, key="eer-range")
-        sess.check("M-eer", abs(fpr - e) <= 1.0 / s.nb_all_neg + 1e-9, "FPR at the EER threshold is more than one sample from the EER", w, sig=sig, key="eer-fpr")
-        sess.check("M-eer", abs(fnr - e) <= 1.0 / s.nb_all_pos + 1e-9, "FNR at the EER threshold is more than one sample from the EER", w, sig=sig, key="eer-fnr")
+        ok_fpr = abs(fpr - e) <= 1.0 / s.nb_all_neg + 1e-9
+        ok_fnr = abs(fnr - e) <= 1.0 / s.nb_all_pos + 1e-9
+        if not (ok_fpr and ok_fnr):
+            # The threshold is threshold_at_fpr(e), an interpolation between two scores. When those are only a few ulp apart the
+            # result rounds onto a score, and a sample *at* the threshold changes sides (C02 states this ambiguity of threshold
+            # setting: "compared up to a few ulp"). Only then - a score within 4 ulp of t - the clause is read at t +- a few ulp.
+            allv = np.concatenate([np.asarray(s.pos, dtype=float), np.asarray(s.neg, dtype=float)])
+            if np.any(np.abs(allv - t) <= 4 * np.spacing(abs(t))):
+                cands = [t]
+                for d_ in (np.inf, -np.inf):
+                    v = t
+                    for _ in range(4):
+                        v = float(np.nextafter(v, d_))
+                        cands.append(v)
+                for v in cands:
+                    if abs(float(s.fpr(v)) - e) <= 1.0 / s.nb_all_neg + 1e-9 and abs(float(s.fnr(v)) - e) <= 1.0 / s.nb_all_pos + 1e-9:
+                        ok_fpr = ok_fnr = True
+                        sig = sig + ("ulp-bracket",)
+                        break
+        sess.check("M-eer", ok_fpr, "FPR at the EER threshold is more than one sample from the EER", w, sig=sig, key="eer-fpr")
+        sess.check("M-eer", ok_fnr, "FNR at the EER threshold is more than one sample from the EER", w, sig=sig, key="eer-fnr")
         sess.check("M-eer", e <= min(s.hard_pos_ratio, s.hard_neg_ratio) + 1e-12, "EER exceeds the smaller hard-sample fraction", w, sig=sig, key="eer-cap")
 
     def on_exc(snap, args, kwargs, exc):
